@@ -440,6 +440,17 @@ Section Machine.
       eapply Ctl_begin; eassumption.
   Qed.
 
+  Lemma Ctl_op s fr rest op todo s1 fr1 en :
+    Ctl s -> frames s = fr :: rest -> exec_op s (with_todo todo fr) op = (s1, fr1, en) ->
+    Ctl (set_frames s1 (fr1 :: rest)).
+  Proof.
+    intros HC Hf He.
+    pose proof (ctl_exec_op s (with_todo todo fr) op) as Hc. pose proof (exec_op_frame s (with_todo todo fr) op) as Hfr.
+    rewrite He in Hc, Hfr. cbn [fst snd] in Hc, Hfr. destruct Hc as (Hm & Hu & _). destruct Hfr as (Hfm & _).
+    eapply (Ctl_same s); [exact HC|exact Hm|exact Hu|reflexivity|]. rewrite Hf.
+    change (f_mod fr1 :: map f_mod rest = f_mod fr :: map f_mod rest). f_equal. exact Hfm.
+  Qed.
+
   (* no failing assert: needs to know that what getProcessedModule finds under a module tag is a module of the project *)
   Definition modules_valid (s : state) : Prop :=
     forall o ob, objs s o = Some ob -> is_module_tag (o_tag ob) = true -> modinfo_of p (fst (fst o)) <> None.
@@ -591,4 +602,118 @@ Proof.
       destruct H as [H|[H|H]]; try discriminate. exact (IHn H).
     + exists level, modname. left. reflexivity.
   - destruct (IH _ H) as (lv & mn & Hin). exists lv, mn. right. exact Hin.
+Qed.
+
+(* ---------------------------------------------------------------- keys of the dicts *)
+Lemma In_nset_keys {V} a k (v : V) l : In a (map fst (nset k v l)) -> a = k \/ In a (map fst l).
+Proof.
+  induction l as [|[k' v'] l IH]; cbn [nset map fst In].
+  - intros [<-|[]]. left. reflexivity.
+  - destruct (N.eqb_spec k' k) as [->|Hne]; cbn [map fst In].
+    + intros [<-|H]; [left; reflexivity|right; right; exact H].
+    + intros [<-|H]; [right; left; reflexivity|]. destruct (IH H) as [->|H']; [left; reflexivity|right; right; exact H'].
+Qed.
+Lemma nset_keys_nodup {V} k (v : V) l : NoDup (map fst l) -> NoDup (map fst (nset k v l)).
+Proof.
+  induction l as [|[k' v'] l IH]; cbn [nset map fst]; intros Hnd.
+  - constructor; [intros []|constructor].
+  - inversion Hnd as [|? ? Hni Hnd']; subst. destruct (N.eqb_spec k' k) as [->|Hne]; cbn [map fst].
+    + constructor; assumption.
+    + constructor; [|apply IH; exact Hnd']. intros Hin. apply In_nset_keys in Hin. destruct Hin as [->|Hin]; [congruence|contradiction].
+Qed.
+Lemma nget_None_notin {V} k (l : list (N * V)) : nget k l = None -> ~ In k (map fst l).
+Proof.
+  unfold nget. induction l as [|[k' v'] l IH]; cbn [aget map fst In]; [tauto|].
+  destruct (N.eqb_spec k' k) as [->|Hne]; [discriminate|]. intros H [E|Hin]; [congruence|exact (IH H Hin)].
+Qed.
+Lemma nget_notin_None {V} k (l : list (N * V)) : ~ In k (map fst l) -> nget k l = None.
+Proof.
+  unfold nget. induction l as [|[k' v'] l IH]; cbn [aget map fst In]; [reflexivity|].
+  intros H. destruct (N.eqb_spec k' k) as [->|Hne]; [exfalso; apply H; left; reflexivity|]. apply IH. tauto.
+Qed.
+Lemma nget_ndel_same {V} k (l : list (N * V)) : NoDup (map fst l) -> nget k (ndel k l) = None.
+Proof.
+  unfold nget. induction l as [|[k' v'] l IH]; cbn [ndel aget map fst]; [reflexivity|]. intros Hnd.
+  inversion Hnd as [|? ? Hni Hnd']; subst. destruct (N.eqb_spec k' k) as [->|Hne].
+  - apply (nget_notin_None k l Hni).
+  - cbn [aget]. destruct (N.eqb_spec k' k); [congruence|]. apply IH. exact Hnd'.
+Qed.
+Lemma nget_ndel_other {V} k k' (l : list (N * V)) : k' <> k -> nget k' (ndel k l) = nget k' l.
+Proof.
+  unfold nget. intros H. induction l as [|[k2 v2] l IH]; cbn [ndel aget]; [reflexivity|].
+  destruct (N.eqb_spec k2 k) as [->|E]; cbn [aget].
+  - destruct (N.eqb_spec k k'); [congruence|reflexivity].
+  - destruct (N.eqb k2 k'); [reflexivity|exact IH].
+Qed.
+Lemma In_ndel_keys {V} a k (l : list (N * V)) : In a (map fst (ndel k l)) -> In a (map fst l).
+Proof.
+  induction l as [|[k' v'] l IH]; cbn [ndel map fst In]; [tauto|].
+  destruct (N.eqb k' k); cbn [map fst In]; [tauto|]. intros [H|H]; [left; exact H|right; exact (IH H)].
+Qed.
+Lemma ndel_keys_nodup {V} k (l : list (N * V)) : NoDup (map fst l) -> NoDup (map fst (ndel k l)).
+Proof.
+  induction l as [|[k' v'] l IH]; cbn [ndel map fst]; intros Hnd; [constructor|].
+  inversion Hnd as [|? ? Hni Hnd']; subst. destruct (N.eqb k' k); [exact Hnd'|]. cbn [map fst].
+  constructor; [intros Hin; apply Hni; exact (In_ndel_keys _ _ _ Hin)|apply IH; exact Hnd'].
+Qed.
+
+Lemma pget_None_notin k (l : list (path * oid)) : pget k l = None -> ~ In k (map fst l).
+Proof.
+  induction l as [|[k' v'] l IH]; cbn [pget map fst In]; [tauto|].
+  destruct (path_eqb k' k) eqn:E; [discriminate|]. apply path_eqb_false in E. intros H [E'|Hin]; [congruence|exact (IH H Hin)].
+Qed.
+Lemma pget_notin_None k (l : list (path * oid)) : ~ In k (map fst l) -> pget k l = None.
+Proof.
+  induction l as [|[k' v'] l IH]; cbn [pget map fst In]; [reflexivity|].
+  intros H. destruct (path_eqb k' k) eqn:E; [apply path_eqb_eq in E; exfalso; apply H; left; exact E|]. apply IH. tauto.
+Qed.
+Lemma In_pset_keys a k v l : In a (map fst (pset k v l)) -> a = k \/ In a (map fst l).
+Proof.
+  induction l as [|[k' v'] l IH]; cbn [pset map fst In].
+  - intros [<-|[]]. left. reflexivity.
+  - destruct (path_eqb k' k) eqn:E; cbn [map fst In].
+    + apply path_eqb_eq in E. subst k'. intros [<-|H]; [left; reflexivity|right; right; exact H].
+    + intros [<-|H]; [right; left; reflexivity|]. destruct (IH H) as [->|H']; [left; reflexivity|right; right; exact H'].
+Qed.
+Lemma pset_keys_nodup k v l : NoDup (map fst l) -> NoDup (map fst (pset k v l)).
+Proof.
+  induction l as [|[k' v'] l IH]; cbn [pset map fst]; intros Hnd.
+  - constructor; [intros []|constructor].
+  - inversion Hnd as [|? ? Hni Hnd']; subst. destruct (path_eqb k' k) eqn:E; cbn [map fst].
+    + apply path_eqb_eq in E. subst k'. constructor; assumption.
+    + apply path_eqb_false in E. constructor; [|apply IH; exact Hnd'].
+      intros Hin. apply In_pset_keys in Hin. destruct Hin as [->|Hin]; [congruence|contradiction].
+Qed.
+Lemma In_pdel_keys a k (l : list (path * oid)) : In a (map fst (pdel k l)) -> In a (map fst l).
+Proof.
+  induction l as [|[k' v'] l IH]; cbn [pdel map fst In]; [tauto|].
+  destruct (path_eqb k' k); cbn [map fst In]; [tauto|]. intros [H|H]; [left; exact H|right; exact (IH H)].
+Qed.
+Lemma pdel_keys_nodup k (l : list (path * oid)) : NoDup (map fst l) -> NoDup (map fst (pdel k l)).
+Proof.
+  induction l as [|[k' v'] l IH]; cbn [pdel map fst]; intros Hnd; [constructor|].
+  inversion Hnd as [|? ? Hni Hnd']; subst. destruct (path_eqb k' k); [exact Hnd'|]. cbn [map fst].
+  constructor; [intros Hin; apply Hni; exact (In_pdel_keys _ _ _ Hin)|apply IH; exact Hnd'].
+Qed.
+Lemma pget_pdel_same k (l : list (path * oid)) : NoDup (map fst l) -> pget k (pdel k l) = None.
+Proof.
+  induction l as [|[k' v'] l IH]; cbn [pdel pget map fst]; [reflexivity|]. intros Hnd.
+  inversion Hnd as [|? ? Hni Hnd']; subst. destruct (path_eqb k' k) eqn:E.
+  - apply path_eqb_eq in E. subst k'. apply (pget_notin_None k l Hni).
+  - cbn [pget]. rewrite E. apply IH. exact Hnd'.
+Qed.
+Lemma pget_pdel_other k k' (l : list (path * oid)) : k' <> k -> pget k' (pdel k l) = pget k' l.
+Proof.
+  intros H. induction l as [|[k2 v2] l IH]; cbn [pdel pget]; [reflexivity|].
+  destruct (path_eqb k2 k) eqn:E; cbn [pget].
+  - apply path_eqb_eq in E. subst k2. rewrite (path_eqb_neq k k') by congruence. reflexivity.
+  - destruct (path_eqb k2 k'); [reflexivity|exact IH].
+Qed.
+
+Lemma NoDup_app_snoc {X} (l : list X) x : NoDup l -> ~ In x l -> NoDup (l ++ [x]).
+Proof.
+  induction l as [|y l IH]; cbn [app]; intros Hnd Hni; [constructor; [intros []|constructor]|].
+  inversion Hnd as [|? ? Hy Hnd']; subst. constructor.
+  - intros Hin. apply in_app_or in Hin. destruct Hin as [Hin|[<-|[]]]; [contradiction|]. apply Hni. left. reflexivity.
+  - apply IH; [exact Hnd'|]. intros Hin. apply Hni. right. exact Hin.
 Qed.
